@@ -157,6 +157,31 @@ CHECKS = {
                 "NextScheduled are compared with the model and with the head of Schedule() (Mon C17)",
         "trusted_base": COMMON_TB, "assumptions": HOOK_ASSUME[2:],
     },
+    "C09": {
+        "family": "disp", "level": "proof", "modules": ["Gk.Props.C09"], "components": ["disp"],
+        "runs": lambda tier: [{"args": ["disp"]}] * {"quick": 1, "thorough": 5, "widen": 3}[tier],
+        "rule": "the whole table fetch{ok,err} x registry{hit,miss} x deadline{none,past,future} x behaviour{nil,"
+                "error,panic,block-until-cancelled} x cancellation{never,before Dispatch,while waiting for a worker,"
+                "during fetch,while running} (224 runnable cells) on the real WorkerPoolDispatcher, each in a fresh "
+                "pool, panics recovered; exhaustive",
+        "trusted_base": COMMON_TB + ["real goroutines: 'instant' of cancellation is realised by hooks inside the "
+                                     "fetcher / work function, so it is deterministic"],
+        "assumptions": ["block-until-cancelled with neither deadline nor cancellation is excluded (never ends)"],
+    },
+    "C08": {
+        "family": "pool", "level": "proof", "modules": ["Gk.Props.C08"], "components": ["pool"],
+        "runs": lambda tier: [{"args": ["pool", "-n", str({"quick": 150, "thorough": 3000, "widen": 600}[tier]), "-len", "16"]},
+                              {"args": ["disp"]}],
+        "rule": "real WorkerPoolDispatcher with gated work functions: random sequences of Add/Remove/Dispatch/"
+                "release/cancel on 1..3(+) workers; after each op (settled) running / blocked / cancelled / alive / "
+                "sleeping are compared with the counter model Gk.Pool (finish on alive vs removed worker resolved by "
+                "the observed choice) and the bound / back-pressure monitors run on the observed counters; plus the "
+                "C09 table for the worker-survives-panic clause",
+        "trusted_base": COMMON_TB + ["github.com/ngicks/workerpool abstracted as counters; goroutine scheduling sampled"],
+        "assumptions": ["observations are taken after the counters have been stable for 8 ms"],
+        "claim": "PARTIAL: theorems are about a counter abstraction of a third-party pool; which goroutine receives "
+                 "a send and removal racing a send are runtime behaviour sampled by the correspondence, not proved.",
+    },
     "C14": {
         "family": "repo", "level": "proof", "modules": ["Gk.Props.C14"],
         "components": ["repo", "heap", "snapshot", "memspec", "next", "find"],
